@@ -116,7 +116,8 @@ CHECKS = {
    text="Component._walk is proved against its recursive contract (self first iff name/predicate match, then the walks of the "
         "subcomponents in order: pre-order, each nested component exactly once) for a symbolic number of subcomponents; walk upper-cases "
         "the requested name; events/todos/timezones/standard/daylight are walk with the fixed name and the always-true predicate; _walk "
-        "writes nothing; __eq__ answers False and never fails for non-components. The algebra of equality and the copy protocols on "
+        "writes nothing; __eq__ answers False and never fails for non-components, and for two components a different number of "
+        "subcomponents or unequal properties (CaselessDict.__eq__: C17) answers False before the matching loop is reached. The algebra of equality and the copy protocols on "
         "random real trees are a labelled bounded stand-in (known finding C20-F1: kind is not compared). 'other' because half of the "
         "statement - the equality algebra (reflexive, symmetric, order- and case-insensitive, multiset-sensitive) and the copy protocols - "
         "is only explored: the greedy multiset matching of __eq__ needs == to be an equivalence on the subcomponents (induction on height "
